@@ -1,7 +1,160 @@
-//! C09 — not implemented yet.
-use vcore::Ctx;
+//! C09 — formatting only changes layout.
+//!
+//! For generated (re-laid) parseable texts and generated [format] settings:
+//!  1. fmt(x) parses;
+//!  2. the token sequence of fmt(x) equals that of x, except that a `,`
+//!     directly before a closing `}` `)` `]` `>` may appear or disappear;
+//!  3. the comments are the same, in the same order, after trimming trailing
+//!     whitespace (per line);
+//!  4. if x analyses without errors, emit(x) and emit(fmt(x)) have the same
+//!     SystemVerilog token stream (comments/whitespace dropped).
 
-pub fn run(_ctx: &Ctx) {
-    println!("INCONCLUSIVE property=C09: check not implemented");
-    std::process::exit(2);
+use crate::front::{self, FmtOpts};
+use vcore::{CaseCfg, Ctx, Outcome, hash_str, json};
+use vgen::relayout::{self, LayoutOpts, Piece, PieceKind};
+
+fn tokens_norm(p: &[Piece]) -> Vec<String> {
+    let toks: Vec<&str> = p
+        .iter()
+        .filter(|p| matches!(p.kind, PieceKind::Token | PieceKind::Verbatim))
+        .map(|p| p.text.as_str())
+        .collect();
+    let mut out = Vec::with_capacity(toks.len());
+    for (i, t) in toks.iter().enumerate() {
+        if *t == ","
+            && let Some(n) = toks.get(i + 1)
+            && matches!(*n, "}" | ")" | "]" | ">" | ">>" | ">>>")
+        {
+            continue; // optional trailing separator
+        }
+        out.push(t.to_string());
+    }
+    out
+}
+
+fn trim_lines(s: &str) -> String {
+    s.lines().map(|l| l.trim_end()).collect::<Vec<_>>().join("\n")
+}
+
+fn comments_norm(p: &[Piece]) -> Vec<String> {
+    p.iter()
+        .filter(|p| matches!(p.kind, PieceKind::LineComment | PieceKind::BlockComment))
+        .map(|p| trim_lines(p.text.trim_end()))
+        .collect()
+}
+
+fn first_mismatch<T: PartialEq + std::fmt::Debug>(a: &[T], b: &[T]) -> String {
+    for i in 0..a.len().max(b.len()) {
+        if a.get(i) != b.get(i) {
+            let lo = i.saturating_sub(3);
+            return format!(
+                "index {i}: original {:?} vs formatted {:?}",
+                &a[lo.min(a.len())..(i + 3).min(a.len())],
+                &b[lo.min(b.len())..(i + 3).min(b.len())]
+            );
+        }
+    }
+    "equal".into()
+}
+
+pub fn layout_only(x: &str, o: &FmtOpts, origin: &str, with_emit: bool) -> Outcome {
+    let md = front::metadata(o);
+    let Some(px) = relayout::pieces(x) else {
+        return Outcome::skip("input does not parse");
+    };
+    let Some(f) = front::format_text(x, &md, "a.veryl") else {
+        return Outcome::skip("input does not parse");
+    };
+    let input = json!({"origin": origin, "format": o.describe(), "x": x, "fmt": f});
+    let Some(pf) = relayout::pieces(&f) else {
+        return Outcome::fail(
+            "formatted-output-does-not-parse",
+            format!("[{}] from {origin}: fmt(x) is rejected by the parser", o.describe()),
+            input,
+        );
+    };
+    let (tx, tf) = (tokens_norm(&px), tokens_norm(&pf));
+    if tx != tf {
+        return Outcome::fail(
+            "token-sequence-changed",
+            format!("[{}] from {origin}: tokens differ at {}", o.describe(), first_mismatch(&tx, &tf)),
+            input,
+        );
+    }
+    let (cx, cf) = (comments_norm(&px), comments_norm(&pf));
+    if cx != cf {
+        let sig = if cx.len() != cf.len() { "comment-lost-or-duplicated" } else { "comment-text-changed" };
+        return Outcome::fail(
+            sig,
+            format!("[{}] from {origin}: comments differ at {}", o.describe(), first_mismatch(&cx, &cf)),
+            input,
+        );
+    }
+    let mut classes = vec![];
+    if with_emit {
+        let bx = front::build(&[("a.veryl".into(), x.to_string())], &md, true);
+        if let Some(bx) = bx
+            && !bx.has_error()
+        {
+            classes.push("emit_compared".to_string());
+            let bf = front::build(&[("a.veryl".into(), f.clone())], &md, true);
+            match bf {
+                Some(bf) if !bf.has_error() => {
+                    let sx = front::sv_tokens(&bx.emitted[0].0);
+                    let sf = front::sv_tokens(&bf.emitted[0].0);
+                    if sx != sf {
+                        return Outcome::fail(
+                            "emitted-sv-differs",
+                            format!(
+                                "[{}] from {origin}: emit(x) and emit(fmt(x)) differ at {}",
+                                o.describe(),
+                                first_mismatch(&sx, &sf)
+                            ),
+                            input,
+                        );
+                    }
+                }
+                _ => {
+                    return Outcome::fail(
+                        "formatted-output-does-not-analyse",
+                        format!("[{}] from {origin}: x analyses cleanly but fmt(x) does not", o.describe()),
+                        input,
+                    );
+                }
+            }
+        }
+    }
+    if !cx.is_empty() {
+        classes.push("has_comment".into());
+    }
+    Outcome::pass(
+        hash_str(&format!("{}|{}", o.describe(), x)),
+        !cx.is_empty() && f != x,
+        classes,
+        format!("// {} [{}]\n{}", origin, o.describe(), x),
+    )
+}
+
+pub fn run(ctx: &Ctx) {
+    let corpus = front::load_corpus();
+    let n = ctx.scale(3000, 200_000);
+    ctx.run("relayout", CaseCfg::cases(n).choices(8000).stack_mb(16), |d| {
+        let (name, src) = &corpus[d.below_usize(corpus.len())];
+        let Some(pieces) = relayout::pieces(src) else {
+            return Outcome::skip("corpus file does not tokenise");
+        };
+        let o = FmtOpts::draw(d);
+        let mut lo = LayoutOpts::draw(d);
+        if lo.inject_per_mille == 0 && d.chance(1, 2) {
+            lo.inject_per_mille = 40;
+        }
+        let x = relayout::relayout(d, &pieces, &lo);
+        layout_only(&x, &o, name, true)
+    });
+    ctx.assume("token sequences are taken from the parser's token positions plus the text between them (the default tree walker skips one `;`), so the witness is complete");
+    ctx.assume("clause 4 (same emitted SV) is checked only when the single file analyses without errors on its own");
+    ctx.finish(
+        "exploration",
+        "corpus files re-laid with generated separators and injected comments x generated [format] settings; non-trivial = >=1 comment and fmt(x) != x; distinct by (settings, text) hash",
+    );
 }
